@@ -298,13 +298,17 @@ class System(ListeningSystem):
                 coords[index] = float(coord)
         except ValueError:
             return self.bad
+        # Validate on a copy first: a refused PRESET must not touch the
+        # operative mode or its timer (the call commits only on success)
+        if not servo.set_coords(list(coords), 40):
+            return self.bad
         servo.operative_mode_timer.cancel()
         _change_atomic_value(servo.operative_mode, 0)
-        retval = servo.set_coords(coords, 40)
-        if retval:
-            self.last_executed_command = self.plc_time()
-            return self.good()
-        return self.bad
+        # Commit again now that the mode is 0, so that a status refresh
+        # running in between (STOP/STOW modes) cannot drop the new target
+        servo.set_coords(coords, 40)
+        self.last_executed_command = self.plc_time()
+        return self.good()
 
     def _programTrack(self, args):
         try:
